@@ -1,6 +1,67 @@
-(* C02: placeholder until the proofs are merged; a concrete run of the model. *)
-From BCL Require Import Model.Api.
+(* C02: Lexical scoping and state flow of variables versus fields.
+
+   The scoping rules are those of Spec/AstSem.v, which works on NAMES: a stack of scopes (toplevel + one per open
+   block) searched innermost first for a variable declared EARLIER (`lookup_frames`; `SVar` evaluates the initialiser
+   in the environment without the new name), else inside a block a field read from the current or the nearest
+   enclosing block that has it (`field_find`) and written to the current block; a redeclaration in the same scope
+   and an unknown name at toplevel are static errors (`XStatic`), an unknown name in a block is the runtime error
+   `XUnresolved`; an assignment updates exactly the resolved variable (`assign_frames`) or field once and yields
+   the value.  The implementation has no names at run time: the compiler resolves identifiers to stack slots
+   (parse.go resolveLocal / declVar / endScope), the VM reads and writes slots and field maps.  C02_language
+   says the two agree on every accepted source text: result, output, blocks, binding and warnings of the run are
+   those the semantics gives to the tree of the text.  C02_static_errors: a text whose tree the code generator
+   rejects (redeclaration, own initialiser, unknown name at toplevel, too many locals) is rejected by Parse, and
+   conversely.  The simulation relation behind it (Proofs/T1Proofs.v `SR`) states the slot discipline: the compile
+   time table of locals is the concatenation of the scopes of the environment, innermost first, and the VM stack
+   at every statement boundary holds exactly the values of those variables in that order. *)
+From BCL Require Import Model.Api Model.Compile Spec.Syntax Spec.AstSem Proofs.ParserInvProofs Proofs.T2Expr Proofs.T2Proofs Proofs.T1Expr Proofs.T1Proofs Proofs.Language.
+Open Scope N_scope.
+
+(* parser ; VM = grammar ; big-step semantics over names, for every source text *)
+Theorem C02_language : forall name src,
+  let pr := parse_whole name src in
+  let ts := fst (lex [src]) in
+  pr_ok pr = true -> pr_oof pr = false -> pr_panic pr = false ->
+  ps_constants (pr_stats pr) < 2^64 ->
+  exists p, ast_program ts = Some p /\
+    let rr := execute (pr_prog pr) false false in
+    limit_res (rr_res rr) \/
+    (res_match (fst (run_program p)) (rr_res rr) /\ obs_match (snd (run_program p)) rr).
+Proof. first [exact Language.bcl_language | apply Language.bcl_language]. Qed.
+Print Assumptions C02_language.
+
+(* accepted iff a sentence whose tree has no static scoping error *)
+Theorem C02_static_errors : forall name src,
+  let pr := parse_whole name src in
+  let ts := fst (lex [src]) in
+  (pr_ok pr = true /\ pr_oof pr = false /\ pr_panic pr = false) <->
+  (exists p, ast_program ts = Some p /\ hadError (compile_program p) = false).
+Proof. first [exact Language.bcl_accepts_iff | apply Language.bcl_accepts_iff]. Qed.
+Print Assumptions C02_static_errors.
+
+(* for every tree: ok / runtime error (with its text) / observables coincide *)
+Theorem C02_tree_semantics : forall (p : list stmt) (name : bytes) (pos lfs : list N),
+  let cs := compile_program p in
+  hadError cs = false -> Forall binds_ok p -> nconsts cs < 2^64 ->
+  let g := {| g_name := name; g_code := rev (code cs); g_consts := rev (consts cs); g_pos := pos; g_lfs := lfs |} in
+  let rr := execute g false false in
+  let sr := fst (run_program p) in
+  let en := snd (run_program p) in
+  ~ limit_res (rr_res rr) ->
+  ((exists u, sr = ROk u) <-> rr_res rr = VOk) /\
+  (sr = RErr XExcluded <-> rr_res rr = VPanic PExcluded) /\
+  sr <> RErr XStatic /\
+  (forall e, sr = RErr e -> e <> XExcluded -> exists q, rr_res rr = VErr q (msg_of e)) /\
+  (forall q msg, rr_res rr = VErr q msg -> exists e, sr = RErr e /\ msg = msg_of e) /\
+  print_lines (rr_out rr) = rev (output en) /\ rr_blocks rr = rev (results en) /\
+  binding_match (binding_ en) (rr_binding rr) /\ nlen (rr_warn rr) = warnings en.
+Proof. first [exact T1Proofs.T1_program_iff | apply T1Proofs.T1_program_iff]. Qed.
+Print Assumptions C02_tree_semantics.
+
+(* non-vacuity: shadowing, own-initialiser, fields versus variables, embedded assignment *)
 Example C02_example :
-  pr_ok (parse_whole (bs "input") (bs "var x = 1 print x + 2 * 3")) = true.
-Proof. vm_compute. reflexivity. Qed.
-Print Assumptions C02_example.
+  match snd (interpret (bs "input") (bs "var x = 1 def b { var x = x + 1; y = x; def c { var x = 10; z = y + x; y = (x = 3) + x } print y } print x") false false false) with
+  | IRun o rr => rr_res rr = VOk /\ print_lines (rr_out rr) = [bs "2" ++ [10]; bs "1" ++ [10]]
+  | _ => False
+  end.
+Proof. vm_compute. split; reflexivity. Qed.
